@@ -53,6 +53,9 @@ CLAIMED["C13"] = ("stateful property testing of drop-order histories over an obj
 CLAIMED["C06"] = ("differential testing of the parse tree against CPython's ast on the shared grammar (grammar-directed generation without redundant parentheses, exhaustive operator-pair table, token mutations for acceptance) and a print/parse round-trip with fixed-point check on generated, corpus and mutated modules",
     "Exploration with an exhaustively enumerated operator-pair table: identical S-expressions from the Starlark AST and CPython's ast; acceptance agreement inside the shared grammar; print(parse(x)) re-parses to an equal tree and is a fixed point.",
     "Trusts CPython's grammar for the shared subset and the harness's two S-expression printers; the outside-shared list is explicit in c06.rs.", "DESIGN.md §5 C06")
+CLAIMED["C17"] = ("property testing of the static checker: no-crash and in-process determinism on generated, mutated and corpus modules; zero-error oracle on a type-directed well-typed-by-construction generator (with annotations); soundness of committed types checked by evaluating the module and testing isinstance of the bound values",
+    "Exploration: typecheck() must return and be repeatable on any parseable module, report nothing on well-typed-by-construction modules, and every definite type it assigns (function result types; module variables are Any in this implementation) must hold for the evaluated value.",
+    "Well-typedness rests on the generator's type discipline (cross-checked by running the module); only expressible, Any-free types count as committed.", "DESIGN.md §5 C17")
 NOT_YET = {}
 
 def main():
